@@ -271,6 +271,14 @@ class LevelAnalysis:
                     out.append(("take?", cur, e))
             elif e[0] == "eff" and e[1] == "MAP.entry_store":
                 out.append(("rpush", e[2][1], e))
+            elif e[0] == "eff" and e[1] in ("MAP.contains_key", "MAP.get") and e[2] and self.self_field(e[2][0]) == self.queue_field:
+                # a presence test / read-only lookup through a queue method the level rules have no summary for
+                res = e[3]
+                hit = facts.decide(res) if e[1] == "MAP.contains_key" else {"Some": True, "None": False}.get(facts.variant.get(res))
+                if hit is False:
+                    out.append(("miss", None, e))
+                else:
+                    out.append(("find", ("field", res, "Some", "0"), e))
             elif e[0] == "eff" and (e[1].startswith("MAP.") or e[1].startswith("TICKET.")) and e[2] and self.self_field(e[2][0]) == self.queue_field:
                 m = e[1].split(".", 1)[1]
                 if m not in ("get", "len", "is_empty", "iter", "contains_key", "new"):
